@@ -186,18 +186,28 @@ CHECKS["C15"] = dict(
         "changes, passes with any reports and any system failure, and clean restarts, the message is not started again on that channel before birth+(isqrt(t-birth)+skip)^2; a due message is started within rank passes on its channel "
         "(earliest-due first, no starvation); nothing is lost (every channel file stays scheduled, a message leaving its last channel is in pqdone); TERM+restart keeps every heap entry; once recent > birth+lifetime a pass answered K/Z/D "
         "removes the message from the channel; every scheduled entry is due by birth+(isqrt(lifetime)+skip)^2 or already due along every fault-free history, hence every message leaves its channel within rank passes after that time. "
+        "PROMPTNESS OF THE SLEEP (select loop): for every snapshot of the daemon's globals and every startable due time d (head of the heap of a channel that is not mid-pass with a job slot free, head of pqfail, head of pqdone) the "
+        "select timeout is 0 once d has been reached and at most d-recent+SLEEP_FUZZ before, whatever the other channel is doing (mid-pass with every slot taken, writes pending, spawner dead); at history level the same for EVERY entry "
+        "of a channel that is not mid-pass and for pqdone entries (the select-preparation model Nq.SelPrep is C16's, imported read-only). "
         "FAILURE PATHS as pure functions with theorems: the trouble exit (recent+SLEEP_SYSFAIL, strictly later than the old due time), job_close in full, pqadd in full, pqfail in pass_do: never earlier than the persisted back-off time, "
         "never lost from all of pqchan/pqdone/pqfail. Tied to the current source by running the real static squareroot() on every age below 2^28 (quick) / 2^32 (thorough) and around every perfect square, nextretry() on a 1.25M-point grid "
         "plus the edges of the no-overflow range, prioq_* on all op sequences over 4 keys to length 8/10 plus random ones to 10^4 ops, seeded daemon histories over a real on-disk queue directory (real pqstart/pass_dochan/del_dochan/"
-        "job_close/pqrun/pqfinish/pass_selprep with a virtual clock stepped around every retry time and the expiry boundary, ALRM, TERM+restart, EIO injected into stat/unlink/open_read on a fifth of the passes) and pqadd/pqfail scenarios "
-        "through the real pass_do()+pqadd() with per-file stat outcomes; the property oracles (incl. a ghost monitor of the history back-off theorem and the nothing-is-lost predicate) are evaluated on the implementation's outputs.",
+        "job_close/pqrun/pqfinish/pass_selprep with a virtual clock stepped around every retry time and the expiry boundary, ALRM, TERM+restart, EIO injected into stat/unlink/open_read on a fifth of the passes), pqadd/pqfail scenarios "
+        "through the real pass_do()+pqadd() with per-file stat outcomes, and 640 (quick) / 16000 (thorough) select-loop scenarios in which the real main() of qmail-send and qmail-clean run under the simulated libc with a discrete-event "
+        "virtual clock (time passes only inside select; deliveries take scripted virtual durations, so a channel sits mid-pass with every slot taken while entries on the other channel, on its own heap, in pqdone after a failed bounce "
+        "injection and in pqfail after a failed start-up stat become due; arrivals, ALRM, short lifetimes; controls without a busy channel): at every select the daemon's globals, the timeout it passed and the clock at which select "
+        "returned are judged by the executable form of the promptness theorem (never wakes more than SLEEP_FUZZ after a startable due time having slept; everything due after ALRM) and the timeout is compared with the model; "
+        "the property oracles (incl. a ghost monitor of the history back-off theorem and the nothing-is-lost predicate) are evaluated on the implementation's outputs.",
    note=NOTE_COMMON + "Modelled, not verified: times are 64-bit longs (overflow range stated by C15_overflow_range; beyond it C has undefined behaviour, the complement theorem describes two's-complement wrap-around only); the file system returns "
         "the mtime given to utimes (exercised on the real FS); spawners report only K/Z/D (a mangled report is deferred even in the expiring pass: complement theorem); system failures are injected by wrapping libc calls inside the included "
-        "source; allocation failure, utimes failure, messdone (and its pqdone re-insertion), the 'trouble reading'/'unknown record type' exits at history level and the select loop itself are outside the model (the loop belongs to the "
-        "Daemon model of C03/C04/C16): C15_hist_leaves bounds the number of passes after the expiry bound, not wall-clock seconds. pqfail is proved at function level (pqadd/pass_do) and is not part of the history model. "
+        "source; allocation failure, utimes failure, messdone (and its pqdone re-insertion), the 'trouble reading'/'unknown record type' exits at history level are outside the model. The select preparation is modelled by Nq.SelPrep "
+        "(owned by C16, compared with the real daemon at every select there and in this check's select-loop scenarios); the rest of the select loop (who calls pass_dochan when) belongs to the Daemon model of C03/C04/C16: "
+        "C15_hist_leaves bounds the number of passes after the expiry bound, not wall-clock seconds, and in the select-loop scenarios virtual time passes only inside select() (a pass itself takes no time). The head of the heap of a "
+        "channel that is mid-pass is by design not startable until the pass ends (stated as the excluded case). pqfail is proved at function level (pqadd/pass_do) and is not part of the history model. "
         "Ages >= 2^32 s are outside the property's quantifier (complement theorems state the saturation).",
    technique="Lean 4 proof (loop invariant with nlinarith; heap-with-a-hole invariants + swap permutations; induction over op sequences; inductive invariants WF/Tracked/Owed/DueBy over all histories of the daemon-step interpreter, rank variant for "
-        "no-starvation) + exhaustive/differential correspondence with the C code incl. function-level daemon histories on a real queue directory with libc fault injection",
+        "no-starvation; minimum-of-due-times characterisation of the select timeout) + exhaustive/differential correspondence with the C code incl. function-level daemon histories on a real queue directory with libc fault injection and "
+        "discrete-event runs of the real main() loop under the simulated libc",
    design="DESIGN.md §2 C15")
 CHECKS["C17"] = dict(
    text="44 theorems about the Lean models of quote.c, token822.c, qmail-remote.c addrmangle, commands.c, qmail-smtpd.c addrparse, hfield.c, headerbody.c and qmail-inject.c; all are proved by induction / simulation over "
@@ -319,13 +329,15 @@ CHECKS["C12"] = dict(
         "plus (From_ line, Return-Path + Delivered-To + message with only a partial last line completed); header lines are single lines, the From_ line yields the sanitised sender; "
         "gfrom = documented From_/>From_ test; for ANY number of concurrent deliveries and every interleaving with flock as a mutex the file is always old content + complete entries "
         "in lock order + the holder's partial output, failed deliveries leave nothing (truncate to the length lseek returned under the lock), final file = entries of exactly the exit-0 deliveries; "
-        "after open_append every exit is 0 or 111 and 0 iff a successful fsync of the complete entry happened; the From_ date has exactly 24 characters for years <= 9999 (from the proved Gregorian "
+        "after open_append every exit is 0 or 111 and 0 iff a successful fsync of the complete entry happened; once a delivery has seen a failing read/write/fsync (not EINTR) it can only "
+        "exit 111 and is never committed - for every entry length and every chunking into writes, i.e. every buffered writer (error_fails); the From_ date has exactly 24 characters for years <= 9999 (from the proved Gregorian "
         "calendar of datetime_tai); a run ending in a successful link has before it open_excl, writes = exactly the content, fsync after the last write, close (inductive). "
-        "Inductive consequences of trace/interleaving invariants: atomic, success, failure, exit codes, link_reach, serial, final, rollback, append, exit_zero_iff; guard restatements tied only by "
+        "Inductive consequences of trace/interleaving invariants: atomic, success, failure, exit codes, link_reach, serial, final, rollback, append, exit_zero_iff, error_fails; guard restatements tied only by "
         "trace replay: link_only, truncate_only_locked, rollback_needs_lock, synced_by_fsync. "
         "Tied to the current source by running the real qmail-local main() under the in-memory POSIX simulator (fork redirected so the maildir child runs as a second simulated process): "
-        "every crash point x 5 crash resolutions, every call index x {EIO, ENOSPC, short write, EINTR, alarm}, sizes around the 1024-byte buffers, name collisions, 2-3 concurrent "
-        "deliveries under enumerated schedules; every trace replayed through the acceptors; gfrom()/myctime() exhaustively/densely; oracle = maildir predicate on concrete crash states, "
+        "every crash point x 5 crash resolutions, every call index x {EIO, ENOSPC, short write, EINTR, alarm}, name collisions, 2-3 concurrent "
+        "deliveries under enumerated schedules; mbox and maildir output lengths (lead-in measured on the implementation) and message lengths exactly k*1024+d, d=-3..3, and the full "
+        "residue range 0..1030, each x a failing call at every call index of the delivery x {ENOSPC, short write, EINTR, short write then ENOSPC}; every trace replayed through the acceptors; gfrom()/myctime() exhaustively/densely; oracle = maildir predicate on concrete crash states, "
         "mboxRead on the concrete final file.",
    note=NOTE_COMMON + "Modelled, not verified: OS semantics of DESIGN 1.4 (sim.c); (time,pid) unique among live deliveries (the name-uniqueness clause rests on this plus the "
         "injectivity theorem); files present in new/ before a delivery staying untouched is oracle-only (driver checks every traced name, crash states compared); if lock_ex() fails the program "
